@@ -5,7 +5,10 @@ Subset: straight-line code over integers, byte strings (list Z) and booleans:
   return e, raise Exc(...), `with ...:` (transparent), list.append, break, continue.
 Expressions: int literals, names, self attributes, + - * // % | & << >>, comparisons,
   and/or/not, len(), min(), max(), single/multi-byte `in` tests on bytes, .split(b'/'),
-  any(<genexpr>), True/False/None.
+  any(<genexpr>), True/False/None, a < b < c on names/constants, x in (1, 2, 3) on integers,
+  a if c else b.  With types["#checked_index"] set, `x = seq[<const>]` raises IndexError when the
+  sequence is too short (and every other integer subscript is refused); without it seq[i] is nth with
+  default 0 (callers must then know the index is in range).
 
 Every function becomes
     Definition <name> (fuel : nat) (<state attrs> <params>) : res (<state tuple> * <ret>)
@@ -16,7 +19,7 @@ from __future__ import annotations
 import ast
 
 EXC_CODES = {"ValueError": 1, "TypeError": 2, "MQTTException": 3, "MalformedPacket": 4,
-             "RuntimeError": 5, "IndexError": 6, "KeyError": 7}
+             "RuntimeError": 5, "IndexError": 6, "KeyError": 7, "AssertionError": 8}
 
 
 class Untranslatable(Exception):
@@ -83,6 +86,8 @@ class Tr:
             return "Z"
         if isinstance(e, ast.List):
             return "zlist"
+        if isinstance(e, ast.IfExp):
+            return self.typ(e.body)
         return "Z"
 
     def expr(self, e, env):
@@ -149,9 +154,15 @@ class Tr:
                         raise Untranslatable("two-sided slice")
                     r = f"(skipn (Z.to_nat {self.expr(lo, env)}) {r})"
                 return r
+            if self.c.types.get("#checked_index"):
+                raise Untranslatable("subscript outside `x = seq[const]` while checked indexing is on")
             return f"(nth (Z.to_nat {self.expr(e.slice, env)}) {v} 0)"
         if isinstance(e, ast.List):
             return "[" + "; ".join(self.expr(x, env) for x in e.elts) + "]"
+        if isinstance(e, ast.IfExp):
+            if self.typ(e.body) != self.typ(e.orelse):
+                raise Untranslatable("conditional expression with branches of different types")
+            return f"(if {self.bexpr(e.test, env)} then {self.expr(e.body, env)} else {self.expr(e.orelse, env)})"
         if isinstance(e, ast.Tuple):
             return "(" + ", ".join(self.expr(x, env) for x in e.elts) + ")"
         raise Untranslatable(f"expression {type(e).__name__}: {ast.unparse(e)}")
@@ -168,8 +179,23 @@ class Tr:
 
     def compare(self, e, env):
         if len(e.ops) != 1:
-            raise Untranslatable("chained comparison")
+            # a < b < c  ==  a < b and b < c ; only for operands without side effects (names, constants)
+            operands = [e.left] + list(e.comparators)
+            if not all(isinstance(o, (ast.Name, ast.Constant)) for o in operands):
+                raise Untranslatable("chained comparison of compound operands")
+            parts = [self.compare(ast.Compare(left=operands[i], ops=[e.ops[i]], comparators=[operands[i + 1]]), env)
+                     for i in range(len(e.ops))]
+            out = parts[-1]
+            for p in reversed(parts[:-1]):
+                out = f"(andb {p} {out})"
+            return out
         op, l, r = e.ops[0], e.left, e.comparators[0]
+        if isinstance(op, (ast.In, ast.NotIn)) and isinstance(r, (ast.Tuple, ast.List)) and r.elts \
+                and all(isinstance(x, ast.Constant) and type(x.value) is int for x in r.elts) \
+                and self.typ(l) == "Z":
+            # x in (0, 1, 2) on integers
+            t = f"(existsb (Z.eqb {self.expr(l, env)}) [{'; '.join(self.expr(x, env) for x in r.elts)}])"
+            return t if isinstance(op, ast.In) else f"(negb {t})"
         if isinstance(op, ast.In):
             if isinstance(l, ast.Constant) and isinstance(l.value, bytes):
                 if len(l.value) == 1:
@@ -250,6 +276,22 @@ class Tr:
         if isinstance(s, ast.With):
             return self.stmts(list(s.body) + rest, env, k_end, loop)
         if isinstance(s, (ast.Assign, ast.AugAssign, ast.AnnAssign)):
+            if isinstance(s, ast.Assign) and self.c.types.get("#checked_index") and len(s.targets) == 1 \
+                    and isinstance(s.value, ast.Subscript) and not isinstance(s.value.slice, ast.Slice):
+                idx = s.value.slice
+                if not (isinstance(idx, ast.Constant) and type(idx.value) is int and idx.value >= 0):
+                    raise Untranslatable("checked index must be a non-negative constant")
+                if self.typ(s.value.value) not in ("bytes", "zlist"):
+                    raise Untranslatable("checked index into a non-list")
+                key = self.target_key(s.targets[0])
+                seq = self.expr(s.value.value, env)
+                env = dict(env)
+                nm = self.fresh(key, env)
+                if isinstance(s.targets[0], ast.Name) and s.targets[0].id not in self.c.types:
+                    self.c.types[s.targets[0].id] = "Z"
+                env[key] = nm
+                return (f"match nth_error {seq} {idx.value} with\n| None => Raise {EXC_CODES['IndexError']}\n"
+                        f"| Some {nm} =>\n{self.stmts(rest, env, k_end, loop)}\nend")
             if isinstance(s, ast.Assign):
                 if len(s.targets) != 1:
                     raise Untranslatable("multi-assign")
@@ -334,7 +376,8 @@ class Tr:
             return self.stmts(rest, e2, k_end, None)
 
         body = list(s.body)
-        is_true = isinstance(s.test, ast.Constant) and s.test.value is True
+        is_true = isinstance(s.test, ast.Constant) and (s.test.value is True or
+                                                        (type(s.test.value) is int and s.test.value == 1))
         inner = self.stmts(body, env_in, call, (call, after))
         if not is_true:
             inner = f"if {self.bexpr(s.test, env_in)} then (\n{inner}\n) else (\n{after(env_in)})"
